@@ -235,11 +235,68 @@ pub fn cyclic_case(spec: &CaseSpec, exclude: &Exclusions) -> Option<Case> {
     if a != b {
         project.decls[b].selections.push(sa);
     }
+    // often: a field OUTSIDE the cycle that selects into it and is reachable from an entrypoint
+    // (cycle detection has to find the cycle whichever declaration it starts from)
+    let mut outside = false;
+    if t.chance(2, 3) {
+        let parent = project.decls[a].parent.clone();
+        let into_cycle = Sel {
+            alias: None,
+            name: project.decls[a].name.clone(),
+            args: vec![],
+            directive: SelDirective::None,
+            children: None,
+            target: Target::ClientField(a),
+        };
+        let selections = if parent == "Query" {
+            Some(vec![into_cycle])
+        } else {
+            project
+                .schema
+                .fields_of("Query")
+                .iter()
+                .find(|f| f.ty.inner_name() == parent)
+                .map(|f| {
+                    let args = f
+                        .args
+                        .iter()
+                        .filter(|d| d.ty.is_non_null() && d.default.is_none())
+                        .map(|d| {
+                            let v = match d.ty.inner_name() {
+                                "Int" | "Float" => crate::Val::Int(1),
+                                "Boolean" => crate::Val::Bool(true),
+                                _ => crate::Val::Str("x".into()),
+                            };
+                            (d.name.clone(), v)
+                        })
+                        .collect();
+                    vec![Sel { alias: None, name: f.name.clone(), args, directive: SelDirective::None, children: Some(vec![into_cycle]), target: Target::ServerObject(parent.clone()) }]
+                })
+        };
+        if let Some(selections) = selections {
+            let k = t.range(1, 3);
+            for i in 0..k {
+                let name = format!("CycOutside{i}");
+                project.decls.push(crate::Decl {
+                    kind: crate::DeclKind::Field { component: false },
+                    parent: "Query".into(),
+                    name: name.clone(),
+                    vars: vec![],
+                    selections: selections.clone(),
+                    description: None,
+                    export_name: format!("Query__{name}"),
+                    file: 0,
+                });
+                project.entrypoints.push(crate::Entrypoint { parent: "Query".into(), name, lazy: false, file: 0 });
+            }
+            outside = true;
+        }
+    }
     let rendered = render(&project);
     let note = format!(
         "{}{}",
         if a == b { "a client field selects itself" } else { "two client fields select each other" },
-        if loadable { " @loadable" } else { "" }
+        if loadable { " @loadable" } else if outside { " (+ outside fields selecting into the cycle from entrypoints)" } else { "" }
     );
     Some(Case { kind: Kind::Cyclic, tier, project, rendered, mutation: None, note })
 }
